@@ -25,6 +25,25 @@ def ZipOK (st : St S M) : Prop :=
     TreeOK G att st.depthLimited hs s st.focus ∧
     CrumbsOK G att root st.depthLimited st.up hs s st.focus
 
+/-- the position under the cursor is reachable from the root -/
+theorem CrumbsOK.reach : ∀ (ups : List (Crumb M)) (dl : Bool) (hs : List S) (s : S) (f : Node M),
+    CrumbsOK G att root dl ups hs s f → Reach G root s := by
+  intro ups
+  induction ups with
+  | nil => intro dl hs s f h; rw [h.2]; exact .refl
+  | cons cr ups ih =>
+    intro dl hs s f h
+    obtain ⟨p, hs', _, _, _, hc, _, _, hrest⟩ := h
+    exact .step (ih dl hs' p cr.node hrest) ⟨f.move, hc.1, hc.2.1⟩
+
+theorem ZipOK.reach {st : St S M} (hz : ZipOK G att root st) {cur : S} {hs : List S}
+    (hst : st.stack = cur :: hs) : Reach G root cur := by
+  obtain ⟨s, hs0, hst0, _, hc⟩ := hz
+  rw [hst] at hst0
+  injection hst0 with e1 e2
+  subst e1
+  exact CrumbsOK.reach G att root _ _ _ _ _ hc
+
 theorem CrumbsOK.mono (dl' : Bool) : ∀ (ups : List (Crumb M)) (dl : Bool) (hs : List S) (s : S) (f : Node M),
     CrumbsOK G att root dl ups hs s f → CrumbsOK G att root (dl || dl') ups hs s f := by
   intro ups
